@@ -27,8 +27,9 @@ from PyMatterSim.static.sq import sq
 
 
 def partial_names(prefix, K):
-    """Column names of the K-species tables (K <= 5): total, then aa, then ab (a < b)."""
-    if K == 1:
+    """Column names of the K-species tables: total, then aa, then ab (a < b); only the total for K = 1 and for K > 5
+    (documented: 'only overall g(r) / S(q) calculated')."""
+    if K == 1 or K > 5:
         return [prefix], {}
     names = [prefix]
     key = {}
@@ -51,32 +52,42 @@ def swapped_name(prefix, name, sigma):
     return f"{prefix}{a2}{b2}"
 
 
+def pick_cell(draw, d, lmin, lmax, kind="any"):
+    """cell of any kind; one in five orthogonal cells gets integer-valued edges (int64 representation class)"""
+    cell = draw(cell_st(d, kind, lmin=lmin, lmax=lmax, origin="any"))
+    if C.chance(draw, 5):
+        cell = C.integerise(cell)
+    return cell
+
+
 # ============================================================================= g(r)
 
 
 @st.composite
-def gr_case(draw):
-    allowed = ["translate", "lattice", "perm", "swap", "axes", "dilate"]
+def gr_case(draw, size="mixed"):
+    allowed = ["translate", "lattice", "perm", "swap", "axes", "dilate", "rotate"]
     want = draw(C.pick(allowed))
     d = draw(C.pick([2, 3]))
-    K = draw(C.pick([2, 2, 3, 3, 4, 5] + ([] if want == "swap" else [1, 1])))
-    N = draw(st.integers(max(3, K), 16))
-    cell = draw(cell_st(d, "ortho" if want == "axes" else "any", lmin=2.0, lmax=20.0, origin="any"))
-    case = draw(config_st(d, N, cell, K=K, frames=(1, 2), ppp=draw(C.ppp_for(d, want))))
-    nb = draw(st.integers(4, 30))
+    K = draw(C.pick([2, 2, 3, 3, 4, 5, 6] + ([] if want == "swap" else [1, 1])))
+    N, bulk = draw(C.size_st((max(2, K), 16), size))
+    if bulk and N > 133 and want != "swap":     # cost: the quinary selectors are evaluated for every centre particle
+        K = min(K, 2)
+    cell = pick_cell(draw, d, 2.0, 20.0)
+    case = draw(C.any_config_st(d, N, bulk, cell, K, (1, 1) if bulk else (1, 2), draw(C.ppp_for(d, want))))
+    nb = draw(C.pick(C.boundary_sizes(31, 260))) if C.chance(draw, 10) else draw(st.integers(4, 30))
     frac = draw(fl(0.15, 0.85))
     Lmin = float(np.diag(cell["H"]).min())
     case["rdelta"] = Lmin / 2.0 / (nb + frac)
     case["nb"] = nb
+    case["obs"] = "gr"
+    case["proto"] = draw(C.pick(C.PROTOCOLS))
+    case["intcell"] = True
     case["tf"] = draw(tf_st(allowed, N=N, K=K, d=d, F=len(case["pos"]), ortho=cell["kind"] == "ortho", ppp=case["ppp"],
-                            first=want))
+                            first=want, rng=np.random.default_rng(case["seed"] + 1) if bulk else None))
     return case
 
 
-def run_gr(name, c, rdelta, nb):
-    K = c["K"]
-    snaps = gen.snapshots_from(c)
-    df = gr(snaps, ppp=np.array(c["ppp"]), rdelta=rdelta).getresults()
+def parse_gr(name, df, K):
     names = partial_names("gr", K)[0]
     columns(name, df, ["r"] + names)
     out = {n: arr(f"{name}[{n}]", col(name, df, n), ndim=1).astype(float) for n in ["r"] + names}
@@ -84,10 +95,30 @@ def run_gr(name, c, rdelta, nb):
     return out
 
 
-def gr_ambiguous_bins(c, rdelta, nb):
-    """bins whose count is not decided: a pair of that class lies within EPS (relative) of one of the bin's edges.
-    Returns dict column -> bool[nb].  A half-cell image tie in a non-orthogonal cell (the two images have different
-    lengths) leaves every bin undecided."""
+def run_gr(name, c, rdelta, nb, snaps=None, side=0):
+    K = c["K"]
+    proto = c.get("proto", "fresh")
+    snaps = gen.snapshots_from(c) if snaps is None else snaps
+    kw = {}
+    if proto == "outfile" and side == 1:
+        kw["outputfile"] = "gr_out.csv"
+    obj = gr(snaps, ppp=np.array(c["ppp"]), rdelta=rdelta, **kw)
+    df = C.KEPT.add(name, obj.getresults())
+    out = parse_gr(name, df, K)
+    if kw:
+        require(os.path.exists(kw["outputfile"]), f"{name}: outputfile {kw['outputfile']} not written")
+    if proto == "twice":
+        out2 = parse_gr(name + " (2nd getresults on the same object)", C.KEPT.add(name + " #2", obj.getresults()), K)
+        for n in out:
+            C.same_again(f"{name}[{n}]", out[n], out2[n])
+        out = out2
+    return out
+
+
+def gr_ambiguous_bins(c, rdelta, nb, noise_bins=0.0):
+    """bins whose count is not decided: a pair of that class lies within EPS (relative; plus the coordinate rounding
+    noise, in bin units) of one of the bin's edges.  Returns dict column -> bool[nb].  A half-cell image tie in a
+    non-orthogonal cell (the two images have different lengths) leaves every bin undecided."""
     K = c["K"]
     names, key = partial_names("gr", K)
     amb = {n: np.zeros(nb, dtype=bool) for n in names}
@@ -102,12 +133,12 @@ def gr_ambiguous_bins(c, rdelta, nb):
             dist = np.sqrt((v * v).sum(axis=1))
             x = dist / rdelta
             k = np.rint(x)
-            near = (np.abs(x - k) <= EPS * np.maximum(x, 1.0)) & (k <= nb)
+            near = (np.abs(x - k) <= EPS * np.maximum(x, 1.0) + noise_bins) & (k <= nb)
             if not near.any():
                 continue
             for kk, tj in zip(k[near].astype(int), types[i + 1:][near]):
                 cols = [names[0]]
-                if K > 1:
+                if key:
                     a, b = sorted((int(types[i]), int(tj)))
                     cols.append(key[(a, b)])
                 for cn in cols:
@@ -137,65 +168,103 @@ def compare_gr(o0, o1, amb, K, sigma, s):
 
 def check_gr(case):
     tf = case["tf"]
-    tags = [f"d{case['d']}", case["cell"]["kind"], f"K{case['K']}", f"frames{len(case['pos'])}",
-            "mask-full" if np.all(case["ppp"]) else ("mask-open" if not np.any(case["ppp"]) else "mask-partial"),
-            "outside" if case["outside"] else "inside", case["kind"].split("+")[0].split(":")[0]] + tf_tags(tf)
+    kept = C.new_kept()
+    tags = C.config_tags(case) + tf_tags(tf, "gr") + [C.size_tag(case["nb"], "bins")] * (case["nb"] > 30)
     if C.tri_tie(case):
         return {"nontrivial": False, "tags": tags + ["skip-tri-tie"]}
     new = apply_tf(case, tf)
-    o0 = run_gr("gr(original)", case, case["rdelta"], case["nb"])
-    o1 = run_gr("gr(transformed)", new, case["rdelta"] * tf["s"], case["nb"])
-    amb = gr_ambiguous_bins(case, case["rdelta"], len(o0["r"]))
+    o0, o1, ptags = C.two_runs(case, new, lambda c, sn, side: run_gr(
+        "gr(transformed)" if side else "gr(original)", dict(c, proto=case["proto"]),
+        case["rdelta"] * (tf["s"] if side else 1.0), case["nb"], sn, side))
+    require(len(o0["r"]) == case["nb"], lambda: f"g(r): {len(o0['r'])} bins, int(Lmin / 2 / rdelta) = {case['nb']}")
+    noise_bins = 8.0 * max(C.coord_noise(case) / case["rdelta"], C.coord_noise(new) / (case["rdelta"] * tf["s"]))
+    amb = gr_ambiguous_bins(case, case["rdelta"], len(o0["r"]), noise_bins)
     nskip = compare_gr(o0, o1, amb, case["K"], tf["sigma"], tf["s"])
     if nskip:
         tags.append("has-ambiguous-bins")
-    return {"nontrivial": C.nondegenerate(o0["gr"]), "tags": tags, "extra": {"ambiguous_bins_not_asserted": nskip}}
+    return {"nontrivial": C.nondegenerate(o0["gr"]), "tags": tags + ptags,
+            "extra": {"ambiguous_bins_not_asserted": nskip, "kept_results_rechecked": kept.verify()}}
 
 
 # ============================================================================= S(q)
 
+QREPS = ("int64", "int64", "float64", "float32", "int32")
+
 
 @st.composite
-def sq_case(draw):
+def sq_case(draw, size="mixed"):
     allowed = ["translate", "lattice", "perm", "swap", "axes"]
     want = draw(C.pick(allowed))
     d = draw(C.pick([2, 3]))
-    K = draw(C.pick([2, 2, 3, 3, 4, 5] + ([] if want == "swap" else [1, 1])))
-    N = draw(st.integers(max(2, K), 20))
-    cell = draw(cell_st(d, "ortho", lmin=2.0, lmax=20.0, origin="any"))
+    K = draw(C.pick([2, 2, 3, 3, 4, 5, 6] + ([] if want == "swap" else [1, 1])))
+    N, bulk = draw(C.size_st((max(2, K), 20), size))
+    cell = pick_cell(draw, d, 2.0, 20.0, "ortho")
     if draw(st.integers(0, 4)) == 0:   # equal edges: axis permutations become pure relabellings of the q set
         cell["H"] = np.eye(d) * cell["H"][0, 0]
-    case = draw(config_st(d, N, cell, K=K, frames=(1, 2), ppp=np.ones(d, dtype=int)))
+    case = draw(C.any_config_st(d, N, bulk, cell, K, (1, 2), np.ones(d, dtype=int)))
     qmode = draw(C.pick(["explicit", "explicit", "range"]))
     case["qmode"] = qmode
     L = np.diag(cell["H"])
     if qmode == "explicit":
-        nq = draw(st.integers(2, 24))
-        qv = draw(st.lists(st.tuples(*[st.integers(-5, 5)] * d).filter(lambda v: any(v)), min_size=nq, max_size=nq,
-                           unique=True))
-        case["qvector"] = np.array(qv, dtype=np.int64)
+        if C.chance(draw, 10):     # number of wave vectors on a block boundary
+            nq = draw(C.pick(C.boundary_sizes(31, 260)))
+            grid = np.array([v for v in itertools.product(range(-9, 10), repeat=d) if any(v)], dtype=np.int64)
+            rq = np.random.default_rng(draw(st.integers(0, 2 ** 32 - 1)))
+            case["qvector"] = grid[rq.permutation(len(grid))[:nq]]
+        else:
+            nq = draw(st.integers(1, 24))
+            qv = draw(st.lists(st.tuples(*[st.integers(-5, 5)] * d).filter(lambda v: any(v)), min_size=nq, max_size=nq,
+                               unique=True))
+            case["qvector"] = np.array(qv, dtype=np.int64)
+        case["nq"] = nq
+        case["qrep"] = draw(C.pick(QREPS))
     else:
         nq = draw(st.integers(2, 7 if d == 3 else 12))
         case["qrange"] = (nq + 0.5) * float((2 * np.pi / L).min()) / 2.0
         case["numofq"] = nq
         case["onlypositive"] = draw(st.booleans())
-    case["tf"] = draw(tf_st(allowed, N=N, K=K, d=d, F=len(case["pos"]), ortho=True, ppp=case["ppp"], first=want))
+    case["obs"] = "sq"
+    case["proto"] = draw(C.pick(C.PROTOCOLS))
+    case["saveq"] = draw(st.booleans())
+    case["intcell"] = True
+    case["tf"] = draw(tf_st(allowed, N=N, K=K, d=d, F=len(case["pos"]), ortho=True, ppp=case["ppp"], first=want,
+                            rng=np.random.default_rng(case["seed"] + 1) if bulk else None))
     return case
 
 
-def run_sq(name, c, qvector):
-    snaps = gen.snapshots_from(c)
-    if c["qmode"] == "explicit":
-        obj = sq(snaps, qvector=np.array(qvector))
-    else:
-        obj = sq(snaps, qrange=c["qrange"], onlypositive=c["onlypositive"])
-    df = obj.getresults()
-    names = partial_names("Sq", c["K"])[0]
+def parse_sq(name, df, K):
+    names = partial_names("Sq", K)[0]
     columns(name, df, ["q"] + names)
     out = {n: arr(f"{name}[{n}]", col(name, df, n), ndim=1).astype(float) for n in ["q"] + names}
     nrows = len(out["q"])
     for n in names:
         require(len(out[n]) == nrows, f"{name}: ragged table")
+    return out
+
+
+def run_sq(name, c, qvector, snaps=None, side=0):
+    proto = c.get("proto", "fresh")
+    snaps = gen.snapshots_from(c) if snaps is None else snaps
+    kw = {}
+    if proto == "outfile" and side == 1:
+        kw = {"outputfile": "sq_out.csv", "saveqvectors": bool(c.get("saveq"))}
+    if c["qmode"] == "explicit":
+        # the transformed side may get the same integers in another representation (np.loadtxt gives float64)
+        qv = np.array(qvector).astype(c.get("qrep", "int64") if side == 1 else np.int64)
+        obj = sq(snaps, qvector=qv, **kw)
+    else:
+        obj = sq(snaps, qrange=c["qrange"], onlypositive=c["onlypositive"], **kw)
+    df = C.KEPT.add(name, obj.getresults())
+    out = parse_sq(name, df, c["K"])
+    if kw:
+        require(os.path.exists("sq_out.csv"), f"{name}: outputfile sq_out.csv not written")
+        if kw["saveqvectors"]:
+            require(os.path.exists("sq_out_qvectors.csv"), f"{name}: sq_out_qvectors.csv not written (saveqvectors=True)")
+    if proto == "twice":
+        out2 = parse_sq(name + " (2nd getresults on the same object)", C.KEPT.add(name + " #2", obj.getresults()), c["K"])
+        for n in out:
+            C.same_again(f"{name}[{n}]", out[n], out2[n])
+        out = out2
     return out
 
 
@@ -209,9 +278,12 @@ def rounding_ambiguous(qint, L):
 def check_sq(case):
     tf = case["tf"]
     d = case["d"]
+    kept = C.new_kept()
     L = np.diag(case["cell"]["H"])
-    tags = [f"d{d}", f"K{case['K']}", f"frames{len(case['pos'])}", "q-" + case["qmode"],
-            "edges-equal" if np.ptp(L) == 0 else "edges-unequal", "outside" if case["outside"] else "inside"] + tf_tags(tf)
+    tags = C.config_tags(case) + ["q-" + case["qmode"]] + tf_tags(tf, "sq")
+    if case["qmode"] == "explicit":
+        tags.append("qrep-" + case["qrep"])
+        tags.append("nq1" if case["nq"] == 1 else (C.size_tag(case["nq"], "nq") if case["nq"] > 30 else "nq2-24"))
     new = apply_tf(case, tf)
     qv0 = case.get("qvector")
     qv1 = None
@@ -227,37 +299,44 @@ def check_sq(case):
             return {"nontrivial": False, "tags": tags + ["skip-q-rounding-ambiguous"]}
     elif qv0 is not None:
         qv1 = qv0
-    o0 = run_sq("sq(original)", case, qv0)
-    o1 = run_sq("sq(transformed)", new, qv1)
+    o0, o1, ptags = C.two_runs(case, new, lambda c, sn, side: run_sq(
+        "sq(transformed)" if side else "sq(original)", dict(c, **{k: case[k] for k in (
+            "qmode", "qrange", "onlypositive", "qrep", "saveq", "proto") if k in case}), qv1 if side else qv0, sn, side))
     require(len(o0["q"]) == len(o1["q"]), lambda: f"S(q): {len(o1['q'])} distinct |q| rows for the transformed system, "
             f"{len(o0['q'])} for the original")
     close_tol("S(q): q column", o1["q"], o0["q"], atol=1.1e-6, rtol=1e-12)
     names = partial_names("Sq", case["K"])[0]
+    # phase noise: |d rho| <= N |q| dx per particle sum, S = |rho|^2 / N
+    qmax = float(o0["q"].max()) if len(o0["q"]) else 0.0
+    phase = 4.0 * len(case["types"]) * qmax * C.coord_noise(case, new)
     for n in names:
         n1 = swapped_name("Sq", n, tf["sigma"])
         close_tol(f"S(q): column {n1} of the transformed system vs column {n} of the original", o1[n1], o0[n],
-                  atol=2.1e-6, rtol=1e-9)
-    return {"nontrivial": C.nondegenerate(o0["Sq"]) and len(o0["q"]) >= 2, "tags": tags,
-            "extra": {"q_rows": len(o0["q"])}}
+                  atol=2.1e-6 + phase, rtol=1e-9)
+    return {"nontrivial": C.nondegenerate(o0["Sq"]) and len(o0["q"]) >= 2, "tags": tags + ptags,
+            "extra": {"q_rows": len(o0["q"]), "kept_results_rechecked": kept.verify()}}
 
 
 # ============================================================================= neighbour lists
 
 
 @st.composite
-def neigh_case(draw):
+def neigh_case(draw, size="mixed"):
     d = draw(C.pick([2, 3]))
     mode = draw(C.pick(["nn", "nn", "cutoff", "cutoff_type"]))
-    allowed = ["translate", "lattice", "perm", "axes"] + (["swap"] if mode == "cutoff_type" else [])
+    allowed = ["translate", "lattice", "perm", "axes", "swap", "rotate"]
     want = draw(C.pick(allowed))
-    K = (draw(st.integers(2, 3)) if want == "swap" else draw(st.integers(1, 3))) if mode == "cutoff_type" else 1
-    N = draw(st.integers(max(3, K), 20))
-    cell = draw(cell_st(d, "ortho" if want == "axes" else "any", lmin=2.0, lmax=20.0, origin="any"))
-    case = draw(config_st(d, N, cell, K=K, frames=(1, 2), ppp=draw(C.ppp_for(d, want))))
+    K = draw(st.integers(2, 3)) if want == "swap" else draw(st.integers(1, 3))
+    N, bulk = draw(C.size_st((max(2, K), 20), size))
+    cell = pick_cell(draw, d, 2.0, 20.0)
+    case = draw(C.any_config_st(d, N, bulk, cell, K, (1, 2), draw(C.ppp_for(d, want))))
     case["mode"] = mode
     Lmin = float(np.diag(cell["H"]).min())
     if mode == "nn":
-        case["k"] = draw(st.integers(1, min(N - 1, 8)))
+        if bulk and N > 40 and draw(st.integers(0, 2)) == 0:
+            case["k"] = draw(st.sampled_from([31, 32, 33]))         # neighbours per particle on a block boundary
+        else:
+            case["k"] = draw(st.integers(1, min(N - 1, 12)))
     elif mode == "cutoff":
         case["rcut"] = draw(fl(0.25, 0.98)) * Lmin / 2.0
     else:
@@ -265,8 +344,16 @@ def neigh_case(draw):
         if draw(st.booleans()):
             rc = np.triu(rc) + np.triu(rc, 1).T
         case["rcut"] = rc
+    case["longlists"] = bool(bulk and mode != "nn" and N <= 140 and C.chance(draw, 3))
+    if bulk and mode != "nn" and not case["longlists"]:       # keep the lists short: about 8 neighbours per particle
+        vol = float(abs(np.linalg.det(cell["H"])))
+        r8 = (8.0 * vol / N / (np.pi if d == 2 else 4.19)) ** (1.0 / d)
+        case["rcut"] = case["rcut"] * min(1.0, r8 / (0.6 * Lmin / 2.0))
+    case["obs"] = mode
+    case["proto"] = draw(C.pick(["fresh", "fresh", "inplace", "default-file"]))
+    case["intcell"] = True
     case["tf"] = draw(tf_st(allowed, N=N, K=K, d=d, F=len(case["pos"]), ortho=cell["kind"] == "ortho", ppp=case["ppp"],
-                            first=want))
+                            first=want, rng=np.random.default_rng(case["seed"] + 1) if bulk else None))
     return case
 
 
@@ -278,21 +365,23 @@ def swap_matrix(m, sigma):
     return out
 
 
-def run_neigh(name, c, mode, k=None, rcut=None, fn="nl.dat"):
-    snaps = gen.snapshots_from(c)
+def run_neigh(name, c, mode, k=None, rcut=None, fn="nl.dat", snaps=None):
+    snaps = gen.snapshots_from(c) if snaps is None else snaps
+    kw = {} if fn is None else {"fnfile": fn}
+    fn = "neighborlist.dat" if fn is None else fn      # documented default name
     if os.path.exists(fn):
         os.remove(fn)
     ppp = np.array(c["ppp"])
     if mode == "nn":
-        Nnearests(snaps, N=int(k), ppp=ppp, fnfile=fn)
+        Nnearests(snaps, N=int(k), ppp=ppp, **kw)
     elif mode == "cutoff":
-        cutoffneighbors(snaps, r_cut=float(rcut), ppp=ppp, fnfile=fn)
+        cutoffneighbors(snaps, r_cut=float(rcut), ppp=ppp, **kw)
     else:
-        cutoffneighbors_particletype(snaps, r_cut=np.array(rcut), ppp=ppp, fnfile=fn)
+        cutoffneighbors_particletype(snaps, r_cut=np.array(rcut), ppp=ppp, **kw)
     return C.parse_neighbor_file(name, fn, len(c["types"]), len(c["pos"]))
 
 
-def compare_lists(case, tf, l0, l1, mode, k=None, rcut=None):
+def compare_lists(case, tf, l0, l1, mode, k=None, rcut=None, noise=0.0):
     """Position-wise comparison by distance: both lists are sorted by distance, so entry p of either list must lie at
     the same distance (within the boundary width) from the centre; only entries tied in distance may differ.  For the
     cut-off modes the lists may differ in length by entries that sit on the cut-off."""
@@ -315,7 +404,7 @@ def compare_lists(case, tf, l0, l1, mode, k=None, rcut=None):
             if not ortho and (ta.any() or tb.any()):
                 continue        # half-cell tie in a tilted cell: the two images have different lengths
             m = min(len(a), len(b))
-            tol = EPS * (np.maximum(da[:m], db[:m]) + Lmax)
+            tol = EPS * (np.maximum(da[:m], db[:m]) + Lmax) + 8.0 * noise
             bad = np.abs(da[:m] - db[:m]) > tol
             if bad.any():
                 p = int(np.nonzero(bad)[0][0])
@@ -331,7 +420,7 @@ def compare_lists(case, tf, l0, l1, mode, k=None, rcut=None):
                 for p in range(m, len(longer)):
                     j = longer[p]
                     rc = float(rcut) if mode == "cutoff" else float(rcut[types[i] - 1, types[j] - 1])
-                    require(abs(dl[p] - rc) <= EPS * (rc + Lmax),
+                    require(abs(dl[p] - rc) <= EPS * (rc + Lmax) + 8.0 * noise,
                             lambda: f"cut-off lists differ in length: frame {f} particle {i + 1}: original "
                             f"{[j + 1 for j in a]}, transformed mapped back {[j + 1 for j in b]}; extra particle "
                             f"{j + 1} at distance {dl[p]!r}, cut-off {rc!r}")
@@ -341,9 +430,9 @@ def compare_lists(case, tf, l0, l1, mode, k=None, rcut=None):
 def check_neigh(case):
     tf = case["tf"]
     mode = case["mode"]
-    tags = [f"d{case['d']}", case["cell"]["kind"], mode, f"frames{len(case['pos'])}",
-            "mask-full" if np.all(case["ppp"]) else ("mask-open" if not np.any(case["ppp"]) else "mask-partial"),
-            "outside" if case["outside"] else "inside", case["kind"].split("+")[0].split(":")[0]] + tf_tags(tf)
+    tags = C.config_tags(case) + [mode] + tf_tags(tf, mode) + ["proto-" + case["proto"]]
+    if mode == "nn" and case["k"] > 30:
+        tags.append(C.size_tag(case["k"], "k"))
     if C.tri_tie(case):
         return {"nontrivial": False, "tags": tags + ["skip-tri-tie"]}
     if C.has_coincident(case):
@@ -351,10 +440,19 @@ def check_neigh(case):
     new = apply_tf(case, tf)
     rc0 = case.get("rcut")
     rc1 = swap_matrix(rc0, tf["sigma"]) if mode == "cutoff_type" else rc0
-    l0 = run_neigh("neighbours(original)", case, mode, case.get("k"), rc0, "nl0.dat")
-    l1 = run_neigh("neighbours(transformed)", new, mode, case.get("k"), rc1, "nl1.dat")
-    swapped = compare_lists(case, tf, l0, l1, mode, case.get("k"), rc0)
+    default = case["proto"] == "default-file"
+    s0 = gen.snapshots_from(case)
+    l0 = run_neigh("neighbours(original)", case, mode, case.get("k"), rc0, None if default else "nl0.dat", s0)
+    if case["proto"] == "inplace":
+        s1 = C.mutate_snaps(s0, new)
+    else:
+        s1, applied = C.build_snaps(new, case["intcell"])
+        if applied:
+            tags.append("rep-intcell")
+    l1 = run_neigh("neighbours(transformed)", new, mode, case.get("k"), rc1, None if default else "nl1.dat", s1)
+    swapped = compare_lists(case, tf, l0, l1, mode, case.get("k"), rc0, C.coord_noise(case, new))
     cns = [len(v) for fr in l0 for v in fr.values()]
+    tags.append("cn>64" if max(cns) > 64 else ("cn>32" if max(cns) > 32 else "cn<=32"))
     nontrivial = bool(max(cns) >= 1 and (mode == "nn" or min(cns) < len(case["types"]) - 1))
     if swapped:
         tags.append("tied-entries-differ")
@@ -365,19 +463,21 @@ def check_neigh(case):
 
 
 @st.composite
-def s2_case(draw):
-    allowed = ["translate", "lattice", "perm", "swap", "axes"]
+def s2_case(draw, size="mixed"):
+    allowed = ["translate", "lattice", "perm", "swap", "axes", "rotate"]
     want = draw(C.pick(allowed))
     d = draw(C.pick([2, 3]))
-    N = draw(st.integers(4, 18))
     K = draw(st.integers(2 if want == "swap" else 1, 3))
+    N, bulk = draw(C.size_st((max(4, K), 18), size, boundary_hi=133, large=(199, 260)))
     rho = draw(st.sampled_from([0.6, 1.0, 2.0]))
     Lm = (N / rho) ** (1.0 / d)
-    cell = draw(cell_st(d, "ortho" if want == "axes" else "any", lmin=0.75 * Lm, lmax=1.3 * Lm, origin="any"))
-    case = draw(config_st(d, N, cell, K=K, frames=(1, 2), ppp=draw(C.ppp_for(d, want))))
+    cell = pick_cell(draw, d, 0.75 * Lm, 1.3 * Lm)
+    case = draw(C.any_config_st(d, N, bulk, cell, K, (1, 2), draw(C.ppp_for(d, want))))
     ndelta = draw(st.integers(10, 40))
     frac = draw(st.sampled_from([0.65, 0.8, 0.97]))
     rmax = frac * float(np.diag(cell["H"]).min()) / 2.0
+    if bulk:
+        rmax = min(rmax, 2.2 / rho ** (1.0 / d))        # a few dozen neighbours inside r_max
     case["rdelta"] = rmax / (ndelta - 0.5)
     case["ndelta"] = ndelta
     case["rmax"] = rmax
@@ -386,39 +486,69 @@ def s2_case(draw):
     if draw(st.booleans()):
         sig = np.triu(sig) + np.triu(sig, 1).T
     case["sigmas"] = sig
+    case["obs"] = "s2"
+    case["proto"] = draw(C.pick(C.PROTOCOLS))
+    case["savegr"] = C.chance(draw, 3)
+    case["intcell"] = True
     case["tf"] = draw(tf_st(allowed, N=N, K=K, d=d, F=len(case["pos"]), ortho=cell["kind"] == "ortho", ppp=case["ppp"],
-                            first=want))
+                            first=want, rng=np.random.default_rng(case["seed"] + 1) if bulk else None))
     return case
 
 
-def run_s2(name, c, sigmas, rdelta, ndelta):
-    snaps = gen.snapshots_from(c)
+def run_s2(name, c, sigmas, rdelta, ndelta, snaps=None, side=0):
+    proto = c.get("proto", "fresh")
+    snaps = gen.snapshots_from(c) if snaps is None else snaps
+    F, N = len(c["pos"]), len(c["types"])
+    kw = {"savegr": True} if c.get("savegr") else {}
+    if proto == "outfile" and side == 1:
+        kw["outputfile"] = "s2_out"
     with np.errstate(all="ignore"):
-        out = S2(snaps, sigmas=np.array(sigmas), ppp=np.array(c["ppp"]), rdelta=rdelta, ndelta=ndelta).particle_s2()
-    return arr(name, out, shape=(len(c["pos"]), len(c["types"]))).astype(float)
+        obj = S2(snaps, sigmas=np.array(sigmas), ppp=np.array(c["ppp"]), rdelta=rdelta, ndelta=ndelta)
+        res = obj.particle_s2(**kw)
+        if proto == "twice":
+            first = res
+            res = obj.particle_s2(**kw)
+    pg = None
+
+    def split(r, nm):
+        if c.get("savegr"):
+            require(isinstance(r, tuple) and len(r) == 2, f"{nm}: particle_s2(savegr=True) must return (s2, particle_gr)")
+            C.KEPT.add(nm, list(r))
+            return arr(nm, r[0], shape=(F, N)).astype(float), arr(nm + " particle_gr", r[1], shape=(F, N, ndelta)).astype(float)
+        C.KEPT.add(nm, r)
+        return arr(nm, r, shape=(F, N)).astype(float), None
+    out, pg = split(res, name)
+    if proto == "twice":
+        o1, _ = split(first, name + " (1st of two evaluations)")
+        C.same_again(name, o1, out)
+    if "outputfile" in kw:
+        require(os.path.exists("s2_out.npy"), f"{name}: outputfile s2_out.npy not written")
+    return out, pg
 
 
 def check_s2(case):
     tf = case["tf"]
+    kept = C.new_kept()
     F, N = len(case["pos"]), len(case["types"])
-    tags = [f"d{case['d']}", case["cell"]["kind"], f"K{case['K']}", f"frames{F}",
-            "mask-full" if np.all(case["ppp"]) else ("mask-open" if not np.any(case["ppp"]) else "mask-partial"),
-            "sigma-sym" if np.array_equal(case["sigmas"], case["sigmas"].T) else "sigma-asym",
-            "outside" if case["outside"] else "inside"] + tf_tags(tf)
+    tags = C.config_tags(case) + ["sigma-sym" if np.array_equal(case["sigmas"], case["sigmas"].T) else "sigma-asym",
+                                  "savegr" if case["savegr"] else "no-savegr"] + tf_tags(tf, "s2")
     if C.tri_tie(case):
         return {"nontrivial": False, "tags": tags + ["skip-tri-tie"]}
     if C.has_coincident(case):
         return {"nontrivial": False, "tags": tags + ["skip-coincident"]}
     new = apply_tf(case, tf)
-    s0 = run_s2("S2(original)", case, case["sigmas"], case["rdelta"], case["ndelta"])
-    s1 = run_s2("S2(transformed)", new, swap_matrix(case["sigmas"], tf["sigma"]), case["rdelta"], case["ndelta"])
+    sig1 = swap_matrix(case["sigmas"], tf["sigma"])
+    (s0, g0), (s1, g1), ptags = C.two_runs(case, new, lambda c, sn, side: run_s2(
+        "S2(transformed)" if side else "S2(original)", dict(c, proto=case["proto"], savegr=case["savegr"]),
+        sig1 if side else case["sigmas"], case["rdelta"], case["ndelta"], sn, side))
     # particles with a pair on the r_max limit are not decided
+    noise = C.coord_noise(case, new)
     amb = np.zeros((F, N), dtype=bool)
     rich = False
     rmax = case["rmax"]
     for f in range(F):
         ii, jj, _, dist, _ = C.pair_info(case, f)
-        near = np.abs(dist - rmax) <= EPS * 10 * rmax
+        near = np.abs(dist - rmax) <= EPS * 10 * rmax + 8.0 * noise
         amb[f, ii[near]] = True
         rich = rich or bool(np.any(np.bincount(ii[dist < rmax], minlength=N) >= 2))
     inv = inv_perm(tf["perm"])
@@ -426,24 +556,33 @@ def check_s2(case):
     ok = ~amb[:, inv]
     fin = np.isfinite(want[ok])
     scale = max(1.0, float(np.abs(want[ok][fin]).max())) if fin.any() else 1.0
+    smooth = 50.0 * noise / float(case["sigmas"].min())      # d/dr of a Gaussian of width sigma, times |ln g| <~ 40
     if ok.any():
         close_tol("S2 per particle (transformed vs original, mapped through the id permutation)", s1[ok], want[ok],
-                  atol=1e-12 * scale, rtol=1e-8, equal_nan=True)
+                  atol=(1e-12 + smooth) * scale, rtol=1e-8, equal_nan=True)
+    if g0 is not None:
+        wantg = g0[:, inv, :]
+        gs = max(1.0, float(np.abs(wantg[ok]).max())) if ok.any() else 1.0
+        if ok.any():
+            close_tol("S2 particle_gr (savegr=True; transformed vs original, mapped through the id permutation)",
+                      g1[ok], wantg[ok], atol=(1e-12 + smooth) * gs, rtol=1e-8, equal_nan=True)
     if amb.any():
         tags.append("has-ambiguous")
     if np.isnan(s0).any():
         tags.append("has-nan")
-    return {"nontrivial": bool(rich and C.nondegenerate(s0)), "tags": tags,
-            "extra": {"particles_ambiguous": int(amb.sum()), "particles_asserted": int(ok.sum())}}
+    return {"nontrivial": bool(rich and C.nondegenerate(s0)), "tags": tags + ptags,
+            "extra": {"particles_ambiguous": int(amb.sum()), "particles_asserted": int(ok.sum()),
+                      "kept_results_rechecked": kept.verify()}}
 
 
 # ============================================================================= repository sample trajectories
 
 SAMPLE_DIR_CANDIDATES = [os.path.join(REPO, "tests", "sample_test_data"), "/repo/tests/sample_test_data"]
-# (file, ndim, weight in the draw); small files are listed more often so that the quick tier stays cheap
+# (file, ndim); small files are listed more often so that the quick tier stays cheap
 SMALL = [("unary.dump", 3), ("quarternary.dump", 3), ("IS.2DIPL.atom", 2), ("2d/2ddump.s.atom", 2), ("3d/3ddump.s.v.atom", 3)]
 LARGE = [("dump_3D.atom", 3), ("2d_triclinic.atom", 2), ("ternary.dump", 3), ("dump_2D.atom", 2), ("binary_velocity.dump", 2)]
 SAMPLES = SMALL + LARGE
+SAMPLE_KINDS = ["translate", "lattice", "perm", "swap", "axes"]
 
 
 def sample_dir():
@@ -455,19 +594,24 @@ def sample_dir():
 
 @functools.lru_cache(maxsize=4)
 def load_sample(fn, ndim):
+    """first (up to four) frames of a sample dump as a configuration case; the arrays are never modified"""
     from PyMatterSim.reader.dump_reader import DumpReader
     r = DumpReader(os.path.join(sample_dir(), fn), ndim=ndim)
     r.read_onefile()
-    s = r.snapshots.snapshots[0]
+    snaps = r.snapshots.snapshots[:4]
+    s = snaps[0]
     H = np.array(s.hmatrix, dtype=float)
     kind = "ortho" if not np.any(H - np.diag(np.diag(H))) else "tri"
-    lo = np.array(s.boxbounds, dtype=float)[:, 0]      # only used to rebuild the (unused) bounds
+    lo = np.array(s.boxbounds if s.realbounds is None else s.realbounds, dtype=float)[:, 0]
     types = np.array(s.particle_type, dtype=int)
     K = int(types.max())
     assert sorted(np.unique(types).tolist()) == list(range(1, K + 1))
+    same = all(np.array_equal(np.array(x.particle_type), types) and np.array_equal(np.array(x.hmatrix), H) for x in snaps)
     return {"d": ndim, "cell": {"d": ndim, "kind": kind, "H": H, "lo": lo, "origin": "file"},
-            "pos": [np.array(s.positions, dtype=float)], "types": types, "ppp": np.ones(ndim, dtype=int), "K": K,
-            "kind": "sample", "timesteps": [int(s.timestep)], "outside": False}
+            "pos": [np.array(x.positions, dtype=float) for x in snaps] if same else [np.array(s.positions, dtype=float)],
+            "types": types, "ppp": np.ones(ndim, dtype=int), "K": K,
+            "kind": "sample", "timesteps": [int(x.timestep) for x in snaps] if same else [int(s.timestep)], "outside": False,
+            "unwrapped": "wrapped"}
 
 
 @st.composite
@@ -479,13 +623,23 @@ def sample_case(draw, large_gr=False):
         obs = "gr"
     else:
         fn, nd = draw(C.pick(SMALL + SMALL + LARGE))
-        obs = draw(C.pick(["gr", "sq", "nn"] if (fn, nd) in SMALL else ["sq", "nn", "sq"]))
-    kinds = [draw(C.pick(["translate", "lattice", "perm", "swap"]))]
-    kinds += draw(st.lists(st.sampled_from(["translate", "lattice", "perm", "swap"]), min_size=0, max_size=2, unique=True))
-    kinds = sorted(set(kinds))
-    case = {"file": fn, "ndim": nd, "obs": obs, "kinds": sorted(kinds), "seed": draw(st.integers(0, 2 ** 32 - 1)),
-            "tfrac": draw(dense((nd,), fl(-3.0, 3.0))), "nb": draw(st.integers(6, 25)), "binfrac": draw(fl(0.15, 0.85)),
-            "k": draw(st.integers(1, 12))}
+        if (fn, nd) in SMALL:
+            obs = draw(C.pick(["gr", "sq", "nn", "cutoff", "s2", "relaxation"] + (["tetrahedral", "boo3d"] if nd == 3 else ["boo2d"])))
+        else:
+            obs = draw(C.pick(["sq", "nn", "sq"]))
+    allowed = SAMPLE_KINDS + (["dilate"] if obs == "gr" else [])
+    kinds = [draw(C.pick(allowed))]
+    r = C._scramble(draw(st.integers(0, 2 ** 32 - 1))) % 10
+    extra = 0 if r <= 3 else (1 if r <= 6 else (2 if r <= 8 else len(allowed)))
+    order = draw(st.permutations(allowed))
+    kinds = sorted(set(kinds + list(order[:extra])))
+    case = {"file": fn, "ndim": nd, "obs": obs, "kinds": kinds, "seed": draw(st.integers(0, 2 ** 32 - 1)),
+            "tfrac": draw(dense((nd,), st.one_of(fl(-3.0, 3.0), fl(-40.0, 40.0)))), "nb": draw(st.integers(6, 25)),
+            "binfrac": draw(fl(0.15, 0.85)), "k": draw(st.integers(1, 12)),
+            "axes": draw(st.sampled_from([p for p in itertools.permutations(range(nd)) if p != tuple(range(nd))])),
+            "s": draw(st.sampled_from([0.5, 2.0, 3.0, 0.37])), "lat": draw(C.pick(["near", "several", "far"])),
+            "l": draw(C.pick([4, 6, 6, 5, 3])), "rc": draw(fl(1.1, 1.9)), "ndelta": draw(st.integers(15, 40)),
+            "nframes": draw(st.integers(2, 4))}
     nq = draw(st.integers(3, 10))
     case["qvector"] = np.array(draw(st.lists(st.tuples(*[st.integers(-4, 4)] * nd).filter(lambda v: any(v)),
                                              min_size=nq, max_size=nq, unique=True)), dtype=np.int64)
@@ -495,20 +649,31 @@ def sample_case(draw, large_gr=False):
 def sample_tf(case, base):
     """Bulk random numbers from numpy.random.default_rng(k), k drawn by Hypothesis (DESIGN 1.3)."""
     rng = np.random.default_rng(case["seed"])
-    N, d, K = len(base["types"]), base["d"], base["K"]
+    N, d, K, F = len(base["types"]), base["d"], base["K"], len(base["pos"])
     kinds = [k for k in case["kinds"] if not (k == "swap" and K < 2)] or ["translate"]
-    tf = {"kinds": kinds, "R": None, "axes": None, "s": 1.0, "tfrac": np.zeros((1, d)), "n": np.zeros((1, N, d)),
-          "perm": np.arange(N), "sigma": np.arange(1, K + 1), "movebox": False, "angle": 0.0}
+    tf = {"kinds": kinds, "R": None, "axes": None, "s": 1.0, "tfrac": np.zeros((F, d)), "n": np.zeros((F, N, d)),
+          "perm": np.arange(N), "sigma": np.arange(1, K + 1), "movebox": False, "angle": 0.0, "lat": None, "far": False}
+    if "axes" in kinds:
+        tf["axes"] = tuple(case["axes"])
+    if "dilate" in kinds:
+        tf["s"] = float(case["s"])
     if "translate" in kinds:
         t = np.array(case["tfrac"], dtype=float)
         if np.abs(t).max() < 0.1:
             t[0] += 0.25
-        tf["tfrac"] = t[None, :]
+        tf["tfrac"] = np.repeat(t[None, :], F, axis=0)
+        tf["far"] = bool(np.abs(t).max() > 5)
+        tf["movebox"] = bool(case["seed"] % 2)
     if "lattice" in kinds:
-        n = rng.integers(-2, 3, size=(1, N, d)).astype(float)
+        lat = case["lat"]
+        amp = 8 if lat == "several" else 2
+        n = rng.integers(-amp, amp + 1, size=(F, N, d)).astype(float)
+        if lat == "far":
+            n[:, rng.integers(0, N, size=max(1, N // 50)), 0] = float(rng.integers(20, 61))
         if not n.any():
             n[0, 0, 0] = 1.0
         tf["n"] = n
+        tf["lat"] = lat
     if "perm" in kinds:
         p = rng.permutation(N)
         if np.array_equal(p, np.arange(N)):
@@ -523,40 +688,130 @@ def sample_tf(case, base):
 
 
 def check_sample(case):
-    base = load_sample(case["file"], case["ndim"])
+    from . import c07_local as L
+    full = load_sample(case["file"], case["ndim"])
+    obs = case["obs"]
+    F = min(len(full["pos"]), case["nframes"]) if obs == "relaxation" else 1
+    base = dict(full, pos=full["pos"][:F], timesteps=full["timesteps"][:F])
     tf = sample_tf(case, base)
     new = apply_tf(base, tf)
-    obs = case["obs"]
-    N = len(base["types"])
-    tags = [case["file"], obs, "N<=1000" if N <= 1000 else "N>1000", base["cell"]["kind"]] + tf_tags(tf)
+    kept = C.new_kept()
+    N, d, K = len(base["types"]), base["d"], base["K"]
+    tags = [case["file"], "obs-" + obs, "N<=1000" if N <= 1000 else "N>1000", base["cell"]["kind"], f"K{K}"] \
+        + tf_tags(tf, obs) + [f"cell:{case['file']}:{k}" for k in tf["kinds"]]
     extra = {}
+    noise = C.coord_noise(base, new)
+    Lmin = float(np.diag(base["cell"]["H"]).min())
+    rho = N / float(abs(np.linalg.det(base["cell"]["H"])))
+    inv = inv_perm(tf["perm"])
     if obs == "gr":
-        Lmin = float(np.diag(base["cell"]["H"]).min())
         rdelta = Lmin / 2.0 / (case["nb"] + case["binfrac"])
         o0 = run_gr("gr(sample)", base, rdelta, case["nb"])
-        o1 = run_gr("gr(sample, transformed)", new, rdelta, case["nb"])
-        amb = gr_ambiguous_bins(base, rdelta, len(o0["r"]))
-        extra["ambiguous_bins_not_asserted"] = compare_gr(o0, o1, amb, base["K"], tf["sigma"], 1.0)
+        o1 = run_gr("gr(sample, transformed)", new, rdelta * tf["s"], case["nb"])
+        amb = gr_ambiguous_bins(base, rdelta, len(o0["r"]), 8.0 * max(C.coord_noise(base) / rdelta, C.coord_noise(new) / (rdelta * tf["s"])))
+        extra["ambiguous_bins_not_asserted"] = compare_gr(o0, o1, amb, K, tf["sigma"], tf["s"])
         nontrivial = C.nondegenerate(o0["gr"])
     elif obs == "sq":
         if base["cell"]["kind"] != "ortho":
             return {"nontrivial": False, "tags": tags + ["skip-sq-triclinic"]}
-        c0 = dict(base, qmode="explicit")
-        c1 = dict(new, qmode="explicit")
-        o0 = run_sq("sq(sample)", c0, case["qvector"])
-        o1 = run_sq("sq(sample, transformed)", c1, case["qvector"])
+        qv0 = case["qvector"]
+        qv1 = qv0[:, list(tf["axes"])] if tf["axes"] is not None else qv0
+        Lb = np.diag(base["cell"]["H"])
+        if tf["axes"] is not None and (rounding_ambiguous(qv0, Lb) or rounding_ambiguous(qv1, Lb[list(tf["axes"])])):
+            return {"nontrivial": False, "tags": tags + ["skip-q-rounding-ambiguous"]}
+        o0 = run_sq("sq(sample)", dict(base, qmode="explicit"), qv0)
+        o1 = run_sq("sq(sample, transformed)", dict(new, qmode="explicit"), qv1)
         require(len(o0["q"]) == len(o1["q"]), "S(q): different number of |q| rows")
         close_tol("S(q) sample: q column", o1["q"], o0["q"], atol=1.1e-6, rtol=1e-12)
-        for n in partial_names("Sq", base["K"])[0]:
+        phase = 4.0 * N * float(o0["q"].max()) * noise
+        for n in partial_names("Sq", K)[0]:
             n1 = swapped_name("Sq", n, tf["sigma"])
-            close_tol(f"S(q) sample: column {n1} (transformed) vs {n} (original)", o1[n1], o0[n], atol=2.1e-6, rtol=1e-9)
+            close_tol(f"S(q) sample: column {n1} (transformed) vs {n} (original)", o1[n1], o0[n], atol=2.1e-6 + phase, rtol=1e-9)
         nontrivial = C.nondegenerate(o0["Sq"])
-    else:
+    elif obs in ("nn", "cutoff"):
         k = int(case["k"])
-        l0 = run_neigh("Nnearests(sample)", base, "nn", k, None, "nl0.dat")
-        l1 = run_neigh("Nnearests(sample, transformed)", new, "nn", k, None, "nl1.dat")
-        extra["entries_differing_within_ties"] = compare_lists(base, tf, l0, l1, "nn", k)
+        rc = case["rc"] / rho ** (1.0 / d)
+        l0 = run_neigh(f"{obs}(sample)", base, obs, k, rc, "nl0.dat")
+        l1 = run_neigh(f"{obs}(sample, transformed)", new, obs, k, rc, "nl1.dat")
+        extra["entries_differing_within_ties"] = compare_lists(base, tf, l0, l1, obs, k, rc, noise)
         nontrivial = True
+    elif obs == "s2":
+        rmax = 2.5 / rho ** (1.0 / d)
+        ndelta = case["ndelta"]
+        rdelta = rmax / (ndelta - 0.5)
+        sig = np.full((K, K), max(0.05, rmax / 35.0) * 1.5) + 0.02 * np.arange(K)[:, None] + 0.01 * np.arange(K)[None, :]
+        (s0, _), (s1, _) = (run_s2("S2(sample)", base, sig, rdelta, ndelta),
+                            run_s2("S2(sample, transformed)", new, swap_matrix(sig, tf["sigma"]), rdelta, ndelta))
+        ii, jj, _, dist, tie = C.pair_info(base, 0) if N <= 1000 else (None,) * 5
+        amb = np.zeros((1, N), dtype=bool)
+        amb[0, ii[(np.abs(dist - rmax) <= EPS * 10 * rmax + 8.0 * noise) | tie]] = True
+        ok = ~amb[:, inv]
+        want = s0[:, inv]
+        fin = np.isfinite(want[ok])
+        scale = max(1.0, float(np.abs(want[ok][fin]).max())) if fin.any() else 1.0
+        close_tol("S2 per particle (sample)", s1[ok], want[ok], atol=(1e-12 + 50.0 * noise / float(sig.min())) * scale,
+                  rtol=1e-8, equal_nan=True)
+        extra["particles_asserted"] = int(ok.sum())
+        nontrivial = C.nondegenerate(s0)
+    elif obs == "tetrahedral":
+        q0 = L.run_tetra("q8_tetrahedral(sample)", base)
+        q1 = L.run_tetra("q8_tetrahedral(sample, transformed)", new)
+        amb, dmin = L.tetra_ambiguous(base, noise)
+        ok = ~amb[:, inv]
+        close_tol("tetrahedral order per particle (sample)", q1[ok], q0[:, inv][ok], atol=1e-12 + 10.0 * noise / dmin, rtol=1e-8)
+        extra["particles_asserted"] = int(ok.sum())
+        nontrivial = C.nondegenerate(q0[~amb])
+    elif obs in ("boo3d", "boo2d"):
+        # bond topology from the library's own N-nearest lists of the original; relabelled consistently
+        k = {3: 12, 2: 6}[d]
+        lists = run_neigh("Nnearests(sample)", base, "nn", k, None, "nl0.dat")
+        nl = [[lists[0][i] for i in range(N)]]
+        bv = L.bond_vectors(base, nl)
+        if d == 3 and L.near_pole(bv):
+            return {"nontrivial": False, "tags": tags + ["skip-near-pole"]}
+        _, _, _, _, tie = C.pair_info(base, 0)
+        if tie.any():
+            return {"nontrivial": False, "tags": tags + ["skip-halfcell-tie"]}
+        nl1 = C.permute_lists(nl, tf["perm"])
+        rows = [list(range(N))]
+        ex = (case["l"] + 1) * noise / float(np.sqrt((bv * bv).sum(axis=1)).min())
+        cc = {"proto": "fresh", "Nmax": None, "bins": 5, "binfrac": 0.5}
+        if d == 3:
+            if L.near_pole(L.bond_vectors(new, nl1)):
+                return {"nontrivial": False, "tags": tags + ["skip-near-pole"]}
+            o0 = L.run_boo3("boo_3d(sample)", base, nl, None, rows, case["l"], "0", None, None, 0, dict(base, **cc))
+            o1 = L.run_boo3("boo_3d(sample, transformed)", new, nl1, None, rows, case["l"], "1", None, None, 1, dict(new, **cc))
+            for cg in (False, True):
+                close_tol(f"boo_3d q_l (sample, cg={cg})", o1["q", cg], o0["q", cg][:, inv], atol=1e-11 + ex, rtol=1e-8)
+            nontrivial = C.nondegenerate(o0["q", False])
+        else:
+            (p0, _), (p1, _) = (L.run_boo2("boo_2d(sample)", base, nl, None, rows, case["l"], "0", None, 0, dict(base, **cc)),
+                                L.run_boo2("boo_2d(sample, transformed)", new, nl1, None, rows, case["l"], "1", None, 1, dict(new, **cc)))
+            close_tol("boo_2d |psi_l| (sample)", np.abs(p1), np.abs(p0[:, inv]), atol=1e-11 + ex, rtol=1e-8)
+            if tf["axes"] is None:
+                close_tol("boo_2d psi_l (sample, complex value)", p1, p0[:, inv], atol=1e-10 + 2 * ex, rtol=1e-8)
+            nontrivial = C.nondegenerate(np.abs(p0))
+    else:   # relaxation, wrapped coordinates of the first frames of a multi-frame sample
+        if F < 2:
+            return {"nontrivial": False, "tags": tags + ["skip-single-frame"]}
+        diam = np.array([1.0, 1.2, 0.9, 1.1, 0.8][:K])
+        cfg = {"mode": "x", "dt": 0.002, "a": 0.3, "cal_type": "slow", "qconst": 2 * np.pi, "proto": "fresh"}
+        dcase = dict(base, **cfg, diam=diam, cond=None, nl=None)
+        on_thr, tie = L.dyn_boundaries(dcase, noise)
+        if tie:
+            return {"nontrivial": False, "tags": tags + ["skip-halfcell-tie"]}
+        diam1 = np.empty_like(diam)
+        diam1[np.asarray(tf["sigma"], dtype=int) - 1] = diam
+        o0 = L.run_dyn("relaxation(sample)", dict(base, **cfg), None, diam, None, None, None, "0")
+        o1 = L.run_dyn("relaxation(sample, transformed)", dict(new, **cfg), None, diam1, None, None, None, "1")
+        rms = np.sqrt(np.maximum(o0["msd"], 0.0))
+        close_tol("relaxation (sample): isf", o1["isf"], o0["isf"], atol=1e-9 + 4.0 * 2 * np.pi / diam.min() * noise, rtol=1e-8)
+        close_tol("relaxation (sample): msd", o1["msd"], o0["msd"], atol=1e-13 * Lmin ** 2 + 8.0 * noise * (rms + noise), rtol=1e-8)
+        if not on_thr:
+            close_tol("relaxation (sample): Qt", o1["Qt"], o0["Qt"], atol=1e-12, rtol=0.0)
+        tags.append(f"frames{F}")
+        nontrivial = bool(o0["msd"].max() > 0)
+    extra["kept_results_rechecked"] = kept.verify()
     return {"nontrivial": bool(nontrivial), "tags": tags, "extra": extra}
 
 
